@@ -124,6 +124,20 @@ func guardedValid(v ssa.Value, b *ssa.BasicBlock) bool {
 	if kindFactValid(v, b) {
 		return true
 	}
+	// a parameter that lives in a cell because a function literal captures it
+	// (`next := func() … { … v.Len() … }`): the cell is written once, at entry, so
+	// every load of it is the parameter; a test of one load speaks for all
+	if ld, ok := v.(*ssa.UnOp); ok && ld.Op == token.MUL {
+		if al, isAl := ld.X.(*ssa.Alloc); isAl && al.Referrers() != nil {
+			if _, stable := paramBehind(ld); stable {
+				for _, ref := range *al.Referrers() {
+					if l2, ok := ref.(*ssa.UnOp); ok && l2 != ld && l2.Op == token.MUL && (guardedValid1(l2, b) || kindFactValid(l2, b)) {
+						return true
+					}
+				}
+			}
+		}
+	}
 	// another load of the same field of the same object, tested before (h.value.CanAddr() && … h.value.Pointer())
 	if ld, ok := v.(*ssa.UnOp); ok && ld.Op == token.MUL {
 		if fa, ok := ld.X.(*ssa.FieldAddr); ok {
